@@ -27,6 +27,7 @@ RULE = ('attack corpus generated from templates (external general/parameter enti
         'Soap11, Soap12 (default-constructed protocols) through ServerBase and WSGI, each also delivered under four other framings (XML declaration with an encoding, with and without a transport charset; ISO-8859-1; UTF-16 with BOM); non-trivial = the child processed the '
         'document under strace and its syscall segment was found; distinct by (protocol, driver, template, position, outcome).')
 ASSUMPTIONS = [
+    'the child process also holds protocol instances (and a second application) constructed with every relaxed parser option; they are never attached to the target',
     'libxml2 in this sandbox is built without an HTTP/FTP client: a network fetch cannot happen even with unsafe options; the file/DTD canaries are the effective detectors, connect() is watched regardless',
     'syscalls are attributed to documents by marker syscalls issued by the child between documents (single-threaded child)',
     'CPU bound: 20 s of process-virtual time per document (ITIMER_VIRTUAL); wall-clock watchdog firing is inconclusive',
@@ -182,6 +183,22 @@ def frame(kind, doc, framing):
     raise KeyError(framing)
 
 
+def make_bystanders(tag):
+    """relaxed protocol instances and a peer application; the relaxed instances are the last ones constructed"""
+    from spyne import Application
+    from spyne.protocol.xml import XmlDocument
+    from spyne.protocol.soap import Soap11, Soap12
+    relaxed = dict(resolve_entities=True, huge_tree=True, load_dtd=True, no_network=False, dtd_validation=False, attribute_defaults=True,
+                   remove_pis=False)
+    out = []
+    for cls in (XmlDocument, Soap11, Soap12):
+        plain_out = cls()
+        out.append(Application([M.build_service(M.Recorder())[0]], '%s:peer:%s' % (M.TNS, tag), name='Peer%s%s' % (cls.__name__, tag),
+                               in_protocol=cls(**relaxed), out_protocol=plain_out))
+        out.append(cls(**relaxed))
+    return out
+
+
 # ------------------------------------------------------------------ child
 
 def child_main(corpus_path, out_path):
@@ -196,6 +213,7 @@ def child_main(corpus_path, out_path):
         job = json.load(f)
     kind, driver = job['kind'], job['driver']
     rec = M.Recorder()
+    early = make_bystanders('before')
     inp, outp = M.make_protocols(kind)         # default-constructed protocols
     from spyne import Application
     svc, _ = M.build_service(rec)
@@ -206,6 +224,10 @@ def child_main(corpus_path, out_path):
     else:
         from spyne.server import ServerBase
         target = ServerBase(app)
+    # bystanders: other protocol instances of the same process, configured with every documented relaxation (think of a
+    # second application for a trusted peer). They are never attached to the target; "default settings" is a property of
+    # the target's own protocol instances and must not depend on who else was constructed, before or after.
+    bystanders = make_bystanders('after')
     try:
         resource.setrlimit(resource.RLIMIT_AS, (6 * 2 ** 30, 6 * 2 ** 30))
     except Exception:
